@@ -32,7 +32,7 @@ def do_import(src, sid):
     res = {}
     try:
         # without the change: the demo passes
-        rc, out = sh(["g++", "-std=c++17", "-I" + os.path.join(wt, "include"), demo, "-o", os.path.join(wt, "demo0")])
+        rc, out = sh(["g++", "-std=c++17", "-I" + os.path.join(wt, "include"), "-I" + os.path.join(wt, "development"), demo, "-o", os.path.join(wt, "demo0")])
         if rc != 0:
             print("demo does not compile on the unchanged tree:\n" + out[-1500:])
             return 1
@@ -42,7 +42,7 @@ def do_import(src, sid):
         if rc != 0:
             print("patch does not apply:\n" + out)
             return 1
-        rc, out = sh(["g++", "-std=c++17", "-I" + os.path.join(wt, "include"), demo, "-o", os.path.join(wt, "demo1")])
+        rc, out = sh(["g++", "-std=c++17", "-I" + os.path.join(wt, "include"), "-I" + os.path.join(wt, "development"), demo, "-o", os.path.join(wt, "demo1")])
         res["compiles_with_change"] = rc == 0
         rc1, out1 = sh([os.path.join(wt, "demo1")], timeout=120) if rc == 0 else (99, out)
         res["demo_fails_with_change"] = rc1 != 0
